@@ -541,3 +541,227 @@ Proof.
       * assert (Hn : ~ (N.to_nat b < cle)%nat) by (intros Hc; apply I1 in Hc; lia).
         destruct (existsb (N.eqb a) keys); [exfalso; lia|]. f_equal. f_equal. lia.
 Qed.
+
+Lemma contract_all_gt keys a : Forall (fun k => a < k) keys ->
+  existsb (N.eqb a) keys = false /\ count_lt keys a = 0.
+Proof.
+  unfold count_lt. induction 1 as [|k t Hk Ht [IH1 IH2]]; [split; reflexivity|].
+  cbn [existsb filter]. destruct (N.eqb_spec a k); [lia|]. destruct (N.ltb_spec k a); [lia|].
+  split; [exact IH1|exact IH2].
+Qed.
+Lemma bs_contract_cons_lt k keys a : k < a ->
+  bs_contract (k :: keys) a = match bs_contract keys a with BsOk i => BsOk (i + 1) | BsErr i => BsErr (i + 1) end.
+Proof.
+  intros H. unfold bs_contract, count_lt. cbn [existsb filter].
+  destruct (N.eqb_spec a k); [lia|]. destruct (N.ltb_spec k a); [|lia]. cbn [orb length].
+  destruct (existsb (N.eqb a) keys); f_equal; lia.
+Qed.
+
+Section Gen2.
+Context {A : Type} (rs rl : A -> N).
+Notation region_ok := (region_ok rs rl).
+Notation disjoint := (disjoint rs rl).
+Notation wf_layout := (wf_layout rs rl).
+Notation region_last_addr := (region_last_addr rs rl).
+Notation from_arc_regions := (from_arc_regions rs rl).
+Notation insert_region := (insert_region rs rl).
+Notation remove_region := (remove_region rs rl).
+Notation find_region := (find_region rs rl).
+Notation mmap_find := (mmap_find rs rl).
+Notation before := (before rs rl).
+Notation ltk := (ltk rs).
+
+Lemma SS_map_ltk L : StronglySorted ltk L -> StronglySorted N.lt (map rs L).
+Proof.
+  induction 1 as [|x t Hs IH Hx]; cbn [map]; constructor; [exact IH|].
+  rewrite Forall_forall in *. intros k Hk. apply in_map_iff in Hk. destruct Hk as (y & <- & Hy). exact (Hx y Hy).
+Qed.
+
+(* where the contract of the search points, in terms of the region list *)
+Lemma contract_split L a : StronglySorted ltk L ->
+  (exists l1 g l2, L = l1 ++ g :: l2 /\ Forall (fun x => rs x < a) l1 /\ rs g = a /\
+                   Forall (fun x => a < rs x) l2 /\ bs_contract (map rs L) a = BsOk (N.of_nat (length l1))) \/
+  (exists l1 l2, L = l1 ++ l2 /\ Forall (fun x => rs x < a) l1 /\ Forall (fun x => a < rs x) l2 /\
+                 bs_contract (map rs L) a = BsErr (N.of_nat (length l1))).
+Proof.
+  induction 1 as [|x t Hs IH Hx].
+  - right. exists [], []. repeat split; constructor.
+  - destruct (N.lt_ge_cases (rs x) a) as [Hlt|Hge].
+    + cbn [map]. rewrite (bs_contract_cons_lt _ _ _ Hlt).
+      destruct IH as [(l1 & g & l2 & E & H1 & H2 & H3 & H4)|(l1 & l2 & E & H1 & H3 & H4)].
+      * left. exists (x :: l1), g, l2. rewrite H4. subst t. repeat split; try assumption.
+        -- constructor; assumption.
+        -- cbn [length]. f_equal. lia.
+      * right. exists (x :: l1), l2. rewrite H4. subst t. repeat split; try assumption.
+        -- constructor; assumption.
+        -- cbn [length]. f_equal. lia.
+    + assert (Ht : Forall (fun y => a < rs y) t).
+      { rewrite Forall_forall in *. intros y Hy. specialize (Hx y Hy). unfold Mmap.ltk in Hx. lia. }
+      assert (Htk : Forall (fun k => a < k) (map rs t)).
+      { rewrite Forall_forall in *. intros k Hk. apply in_map_iff in Hk. destruct Hk as (y & <- & Hy). exact (Ht y Hy). }
+      destruct (contract_all_gt _ _ Htk) as [E1 E2]. unfold count_lt in E2.
+      destruct (N.eq_dec (rs x) a) as [Heq|Hne].
+      * left. exists [], x, t. repeat split; try assumption; try constructor.
+        unfold bs_contract, count_lt. cbn [map existsb filter]. rewrite Heq, N.eqb_refl. cbn [orb].
+        destruct (N.ltb_spec a a); [lia|]. rewrite E2. reflexivity.
+      * right. exists [], (x :: t). repeat split; try constructor; try assumption; [lia|].
+        unfold bs_contract, count_lt. cbn [map existsb filter].
+        destruct (N.eqb_spec a (rs x)); [lia|]. destruct (N.ltb_spec (rs x) a); [lia|].
+        cbn [orb]. rewrite E1, E2. reflexivity.
+Qed.
+
+Lemma split_unique l1 g l2 l1' g' l2' : StronglySorted ltk (l1 ++ g :: l2) ->
+  l1 ++ g :: l2 = l1' ++ g' :: l2' -> rs g = rs g' -> l1 = l1' /\ g = g' /\ l2 = l2'.
+Proof.
+  revert l1'. induction l1 as [|y l1 IH]; intros [|y' l1'] Hs E Hk; cbn [app] in *.
+  - inversion E; subst. repeat split.
+  - inversion E; subst. inversion Hs as [|? ? _ Hf]; subst. rewrite Forall_forall in Hf.
+    assert (Hin : In g' (l1' ++ g' :: l2')) by (apply in_or_app; right; left; reflexivity).
+    specialize (Hf g' Hin). unfold Mmap.ltk in Hf. lia.
+  - inversion E; subst. inversion Hs as [|? ? _ Hf]; subst. rewrite Forall_forall in Hf.
+    assert (Hin : In g (l1 ++ g :: l2)) by (apply in_or_app; right; left; reflexivity).
+    specialize (Hf g Hin). unfold Mmap.ltk in Hf. lia.
+  - inversion E; subst. inversion Hs as [|? ? Hs' _]; subst.
+    destruct (IH l1' Hs' H1 Hk) as (-> & -> & ->). repeat split.
+Qed.
+
+(* ------------------------------------------------------------------ remove_region *)
+Lemma remove_cases L b s : wf_layout L ->
+  (exists l1 g l2, L = l1 ++ g :: l2 /\ rs g = b /\ rl g = s /\
+                   remove_region L b s = Val (Ok (l1 ++ l2, g))) \/
+  ((forall g, In g L -> ~ (rs g = b /\ rl g = s)) /\
+   remove_region L b s = Val (Err EInvalidGuestRegion)).
+Proof.
+  intros (Hok & Hs & Hd). unfold Mmap.remove_region.
+  rewrite (binary_search_contract _ b (SS_map_ltk L Hs)). cbn [bind].
+  destruct (contract_split L b Hs) as [(l1 & g & l2 & E & H1 & H2 & H3 & H4)|(l1 & l2 & E & H1 & H3 & H4)];
+    rewrite H4.
+  - rewrite Nat2N.id. subst L. rewrite nth_error_mid.
+    destruct (N.eqb_spec (rl g) s) as [Hsz|Hsz].
+    + left. exists l1, g, l2. repeat split; try assumption.
+      unfold vec_remove. rewrite firstn_mid, skipn_mid. reflexivity.
+    + right. split; [|reflexivity]. intros g' Hin [Hb Hl].
+      apply in_app_or in Hin. rewrite Forall_forall in H1, H3.
+      destruct Hin as [Hin|[<-|Hin]]; [specialize (H1 g' Hin); lia|contradiction|specialize (H3 g' Hin); lia].
+  - right. split; [|reflexivity]. intros g' Hin [Hb Hl]. subst L.
+    apply in_app_or in Hin. rewrite Forall_forall in H1, H3.
+    destruct Hin as [Hin|Hin]; [specialize (H1 g' Hin); lia|specialize (H3 g' Hin); lia].
+Qed.
+
+Lemma wf_remove_mid l1 g l2 : wf_layout (l1 ++ g :: l2) -> wf_layout (l1 ++ l2).
+Proof.
+  intros H. apply wf_layout_before in H. destruct H as [Hok Hs]. apply wf_layout_before.
+  apply Forall_app in Hok. destruct Hok as [Hok1 Hok2]. inversion Hok2; subst.
+  split; [apply Forall_app; split; assumption|].
+  destruct (SS_app_inv _ _ _ Hs) as (S1 & S2 & S3). inversion S2; subst.
+  apply SS_app; [assumption|assumption|]. intros x y Hx Hy. apply S3; [exact Hx|right; exact Hy].
+Qed.
+
+Lemma remove_ok_iff_lemma L b s L' g : wf_layout L ->
+  (remove_region L b s = Val (Ok (L', g)) <->
+   exists l1 l2, L = l1 ++ g :: l2 /\ L' = l1 ++ l2 /\ rs g = b /\ rl g = s).
+Proof.
+  intros Hw. destruct (remove_cases L b s Hw) as [(l1 & g0 & l2 & E & Hb & Hl & Er)|(Hno & Er)]; rewrite Er.
+  - split.
+    + intros E'; inversion E'; subst. exists l1, l2. repeat split.
+    + intros (l1' & l2' & E1 & E2 & Hb' & Hl'). destruct Hw as (_ & Hs & _). rewrite E in Hs.
+      rewrite E in E1. destruct (split_unique _ _ _ _ _ _ Hs E1 ltac:(lia)) as (-> & -> & ->). subst L'. reflexivity.
+  - split; [discriminate|]. intros (l1' & l2' & E1 & E2 & Hb' & Hl'). exfalso.
+    apply (Hno g); [subst L; apply in_or_app; right; left; reflexivity|split; assumption].
+Qed.
+Lemma remove_err_iff_lemma L b s : wf_layout L ->
+  (forall e, remove_region L b s = Val (Err e) <->
+     e = EInvalidGuestRegion /\ forall g, In g L -> ~ (rs g = b /\ rl g = s)) /\
+  (exists r, remove_region L b s = Val r).
+Proof.
+  intros Hw. destruct (remove_cases L b s Hw) as [(l1 & g0 & l2 & E & Hb & Hl & Er)|(Hno & Er)]; rewrite Er.
+  - split; [|eexists; reflexivity]. intros e. split; [discriminate|]. intros (_ & Hno). exfalso.
+    apply (Hno g0); [subst L; apply in_or_app; right; left; reflexivity|split; assumption].
+  - split; [|eexists; reflexivity]. intros e. split.
+    + intros E; inversion E; subst. split; [reflexivity|exact Hno].
+    + intros (-> & _). reflexivity.
+Qed.
+Lemma remove_wf L b s L' g : wf_layout L -> remove_region L b s = Val (Ok (L', g)) ->
+  wf_layout L' /\ Permutation L (g :: L').
+Proof.
+  intros Hw E. apply (remove_ok_iff_lemma L b s L' g Hw) in E. destruct E as (l1 & l2 & -> & -> & _ & _).
+  split; [eapply wf_remove_mid; exact Hw|]. apply Permutation_sym, Permutation_middle.
+Qed.
+
+(* ------------------------------------------------------------------ find_region *)
+Lemma find_region_eq m L a : wf_layout L -> find_region m L a = Val (mmap_find L a).
+Proof.
+  intros (Hok & Hs & Hd). unfold Mmap.find_region, Mmap.mmap_find.
+  rewrite (binary_search_contract _ a (SS_map_ltk L Hs)). cbn [bind].
+  destruct (contract_split L a Hs) as [(l1 & g & l2 & E & H1 & H2 & H3 & H4)|(l1 & l2 & E & H1 & H3 & H4)];
+    rewrite H4.
+  - rewrite Nat2N.id. subst L. rewrite nth_error_mid. reflexivity.
+  - destruct (N.ltb_spec 0 (N.of_nat (length l1))) as [Hpos|Hz]; [|reflexivity].
+    rewrite psub_Val by lia. cbn [bind].
+    destruct (nth_error L (N.to_nat (N.of_nat (length l1) - 1))) as [p|] eqn:Ep.
+    + assert (Hp : region_ok p). { rewrite Forall_forall in Hok. apply Hok. eapply nth_error_In. exact Ep. }
+      rewrite (last_addr_ok rs rl m p Hp). cbn [bind]. destruct (a <=? rs p + (rl p - 1)); reflexivity.
+    + exfalso. apply nth_error_None in Ep. subst L. rewrite app_length in Ep. lia.
+Qed.
+
+(* THE INTERFACE LEMMA: on a valid layout the lookup returns exactly the region containing the address *)
+Lemma mmap_find_spec L : wf_layout L -> forall a r,
+  mmap_find L a = Some r <-> In r L /\ rs r <= a /\ a <= rs r + rl r - 1.
+Proof.
+  intros Hw a r. pose proof Hw as Hw0. apply wf_layout_before in Hw0. destruct Hw0 as [Hok Hb].
+  destruct Hw as (_ & Hs & _). unfold Mmap.mmap_find. rewrite Forall_forall in Hok.
+  destruct (contract_split L a Hs) as [(l1 & g & l2 & E & H1 & H2 & H3 & H4)|(l1 & l2 & E & H1 & H3 & H4)];
+    rewrite H4; rewrite Forall_forall in H1, H3.
+  - rewrite Nat2N.id. subst L. rewrite nth_error_mid.
+    assert (Hg : region_ok g) by (apply Hok; apply in_or_app; right; left; reflexivity).
+    destruct Hg as [Hg1 Hg2]. split.
+    + intros E; inversion E; subst. split; [apply in_or_app; right; left; reflexivity|lia].
+    + intros (Hin & Hlo & Hhi). apply in_app_or in Hin. destruct Hin as [Hin|[<-|Hin]]; [|reflexivity|].
+      * exfalso. destruct (SS_app_inv _ _ _ Hb) as (_ & _ & S3).
+        specialize (S3 r g Hin (or_introl eq_refl)). unfold Proofs.Mmap.before in S3.
+        assert (Hr : region_ok r) by (apply Hok; apply in_or_app; left; exact Hin). destruct Hr. lia.
+      * exfalso. specialize (H3 r Hin). lia.
+  - destruct (N.ltb_spec 0 (N.of_nat (length l1))) as [Hpos|Hz].
+    + destruct (exists_last (l := l1)) as (l1' & p & El1); [intros ->; cbn [length] in Hpos; lia|].
+      subst l1. rewrite app_length in *. cbn [length] in *.
+      replace (N.to_nat (N.of_nat (length l1' + 1) - 1)) with (length l1') by lia.
+      subst L. rewrite <- app_assoc. cbn [app]. rewrite nth_error_mid.
+      rewrite <- app_assoc in Hb, Hok. cbn [app] in Hb, Hok.
+      assert (Hp : region_ok p) by (apply Hok; apply in_or_app; right; left; reflexivity).
+      destruct Hp as [Hp1 Hp2].
+      assert (Hpa : rs p < a) by (apply H1; apply in_or_app; right; left; reflexivity).
+      assert (Hcase : forall r, In r (l1' ++ p :: l2) -> rs r <= a -> a <= rs r + rl r - 1 -> r = p).
+      { intros r0 Hin Hlo Hhi. apply in_app_or in Hin. destruct Hin as [Hin|[<-|Hin]]; [|reflexivity|].
+        - exfalso. destruct (SS_app_inv _ _ _ Hb) as (_ & _ & S3).
+          specialize (S3 r0 p Hin (or_introl eq_refl)). unfold Proofs.Mmap.before in S3.
+          assert (Hr : region_ok r0) by (apply Hok; apply in_or_app; left; exact Hin). destruct Hr. lia.
+        - exfalso. specialize (H3 r0 Hin). lia. }
+      destruct (N.leb_spec a (rs p + (rl p - 1))) as [Hle|Hgt].
+      * split.
+        -- intros E; inversion E; subst. split; [apply in_or_app; right; left; reflexivity|lia].
+        -- intros (Hin & Hlo & Hhi). rewrite (Hcase r Hin Hlo Hhi). reflexivity.
+      * split; [discriminate|]. intros (Hin & Hlo & Hhi). exfalso.
+        rewrite (Hcase r Hin Hlo Hhi) in Hhi. lia.
+    + split; [discriminate|]. intros (Hin & Hlo & Hhi). exfalso.
+      assert (l1 = []) by (destruct l1; [reflexivity|cbn [length] in Hz; lia]). subst l1 L. cbn [app] in Hin.
+      specialize (H3 r Hin). lia.
+Qed.
+Lemma mmap_find_unique L a r r' : wf_layout L ->
+  In r L -> rs r <= a <= rs r + rl r - 1 -> In r' L -> rs r' <= a <= rs r' + rl r' - 1 -> r = r'.
+Proof.
+  intros Hw H1 [H2 H3] H4 [H5 H6].
+  assert (E1 : mmap_find L a = Some r) by (apply (mmap_find_spec L Hw); repeat split; assumption).
+  assert (E2 : mmap_find L a = Some r') by (apply (mmap_find_spec L Hw); repeat split; assumption).
+  congruence.
+Qed.
+
+(* ------------------------------------------------------------------ every reachable map is valid *)
+Lemma wf_preserved_lemma m L : reachable rs rl m L -> wf_layout L.
+Proof.
+  induction 1 as [|L L' Hok E|L r L' Hr IH Hrok E|L b s L' r Hr IH E].
+  - apply wf_nil.
+  - apply (from_ok_iff_lemma rs rl m L L' Hok) in E. destruct E as (-> & _ & Hw). exact Hw.
+  - exact (proj1 (insert_ok_lemma rs rl m L r L' IH Hrok E)).
+  - exact (proj1 (remove_wf L b s L' r IH E)).
+Qed.
+End Gen2.
